@@ -19,6 +19,16 @@ type grpModel struct {
 	prime bool     // the type promises membership in the prime-order subgroup
 	cl    int      // bytes of one base-field component
 	G     pt       // the designated generator, as the oracle sees it
+	// the reserved encodings of the identity are conventions of the library, not mathematics: they are read once from
+	// the library's encoders (like the generator) and the oracle's encoders reproduce them
+	idEnc map[string][]byte
+}
+
+func (g *grpModel) identityEnc(rule string, def []byte) []byte {
+	if b, ok := g.idEnc[rule]; ok {
+		return append([]byte{}, b...)
+	}
+	return def
 }
 
 func (g *grpModel) cm() curveModel {
@@ -109,13 +119,10 @@ var fmtSec1c = &format{
 		s := sem{fl: map[string]int{"prefix": int(b[0])}, idform: "no"}
 		x, red := g.rdBE(b[1:])
 		s.red = red
-		if g.f().isZero(x) { // the library reserves x = 0 for the identity
+		if _, has := g.w.lift(x); g.f().isZero(x) && !has { // no point has x = 0 here: the library reads it as the identity
 			s.isID = true
 			s.cands = []pt{g.w.identity()}
 			s.idform = "noncanon"
-			if allZero(b[1:]) && b[0] == 2 {
-				s.idform = "canon"
-			}
 			return s
 		}
 		s.cands = pickW(g.w, x, b[0]&1 == 1, g.f().odd)
@@ -123,7 +130,7 @@ var fmtSec1c = &format{
 	},
 	enc: func(g *grpModel, p pt) []byte {
 		if p.inf {
-			return append([]byte{2}, make([]byte, g.cl)...)
+			return g.identityEnc("sec1c", append([]byte{2}, make([]byte, g.cl)...))
 		}
 		pre := byte(2)
 		if g.f().odd(p.y) {
@@ -157,7 +164,7 @@ var fmtSec1u = &format{
 	},
 	enc: func(g *grpModel, p pt) []byte {
 		if p.inf {
-			return append([]byte{4}, make([]byte, 2*g.cl)...)
+			return g.identityEnc("sec1u", append([]byte{4}, make([]byte, 2*g.cl)...))
 		}
 		return append(append([]byte{4}, g.wrBE(p.x)...), g.wrBE(p.y)...)
 	},
@@ -428,6 +435,7 @@ var fmtBlsu = &format{
 // ---------------------------------------------------------------- judged-by-nobody summary of a string
 type verdictIn struct {
 	Len, L                 int
+	idenc                  bool // the string is the library's reserved encoding of the identity
 	fl                     map[string]int
 	idform                 string
 	red, onc, insub, small bool
@@ -442,6 +450,10 @@ func classify(g *grpModel, fm *format, b []byte) verdictIn {
 		return out
 	}
 	s := fm.sem(g, b)
+	if id, ok := g.idEnc[fm.rule]; ok && bytes.Equal(id, b) {
+		out.idenc = true
+		s.cands, s.idform, s.isID = []pt{g.cm().identity()}, "canon", true
+	}
 	out.fl, out.idform, out.red = s.fl, s.idform, s.red
 	out.onc = len(s.cands) > 0
 	out.insub, out.small = out.onc, out.onc
